@@ -105,6 +105,7 @@ func (c *wsConn) listen(ws *websocket.Conn) {
 		}
 
 		c.Tracef("--> %s", in)
+		verifFrameIn()
 		in := in
 		c.Enqueue(func() {
 			rpc.HandleRequest(in, c)
